@@ -12,6 +12,7 @@ CONSTANTS
   Ops = {"submit", "status", "cancel"}
   FindUnitHoldsRLock = FALSE
   TruncFirst = FALSE
+  UnregFirst = FALSE
   KF_EmptyStatus = FALSE
   KF_CancelOverS = FALSE
   CancelKeepsSucceeded = TRUE
